@@ -55,7 +55,7 @@ static GLOBAL: alloc::SimAlloc = alloc::SimAlloc;
 
 fn usage() -> i32 {
     eprintln!(
-        "usage: elfsim check <C06|C07|C08|C17|C18> --tier quick|thorough [--workers N] [--runs N] [--nostd-bin PATH] [--no-evidence]\n       elfsim replay <file>\n       elfsim selftest determinism|reach\n       elfsim dump <P> <tier> <seed> <run>\n       elfsim digest <P> <tier> <seed> <start> <end>"
+        "usage: elfsim check <C06|C07|C08|C17|C18> --tier quick|thorough [--workers N] [--runs N] [--nostd-bin PATH] [--no-evidence]\n       elfsim replay <file>\n       elfsim selftest determinism   (reach: ./check selftest reach)\n       elfsim dump <P> <tier> <seed> <run>\n       elfsim digest <P> <tier> <seed> <start> <end>"
     );
     2
 }
@@ -321,7 +321,7 @@ fn assumptions_for(prop: &str) -> Vec<&'static str> {
             v.push("scoped out as the property states: ops designating an SHF_COMPRESSED section; files with a present-but-empty section header table");
         }
         "C08" => {
-            v.push("bound per allocation = 4*stream_len + 8192; workload asks for <= 112 distinct byte ranges per stream");
+            v.push("bound per allocation = 4*stream_len + 16384; the number of distinct byte ranges a history asks one stream for is capped as a function of the stream length so that a 48-byte-per-entry cache index stays under the bound");
             v.push("designated sets over-approximate where the crate chooses among candidate sections");
         }
         "C17" => {
@@ -347,7 +347,16 @@ fn level_for(prop: &str) -> &'static str {
 struct MatrixResult {
     json: J,
     violations: Vec<(String, String)>, // (command, stderr tail)
+    /// failures that do not come from compiling the `elf` crate (missing toolchain, cargo
+    /// not runnable, sysroot trouble): harness errors, never verdicts
+    env_failures: Vec<String>,
     wall_s: f64,
+}
+
+/// A failed cargo invocation counts against the crate only when cargo says that the
+/// `elf` crate itself (or the no_std consumer of it) did not compile.
+fn is_crate_failure(stderr: &str) -> bool {
+    stderr.contains("could not compile `elf`") || stderr.contains("could not compile `nostd-consumer`")
 }
 
 /// C06 second sentence: cargo check for all 8 feature subsets + bare-metal build.
@@ -358,6 +367,7 @@ fn c06_build_matrix() -> MatrixResult {
     let root = sup::verif_root();
     let mut rows = Vec::new();
     let mut violations = Vec::new();
+    let mut env_failures: Vec<String> = Vec::new();
     let feats = ["alloc", "std", "to_str"];
     let mut default_ok = true;
     // default build first: if it fails, nothing else is judged (harness/build error)
@@ -385,22 +395,28 @@ fn c06_build_matrix() -> MatrixResult {
             .args(&argv)
             .env("CARGO_NET_OFFLINE", "true")
             .output();
-        let (ok, tail) = match out {
-            Ok(o) => (
-                o.status.success(),
-                String::from_utf8_lossy(&o.stderr)
-                    .lines()
-                    .rev()
-                    .take(12)
-                    .collect::<Vec<_>>()
-                    .into_iter()
-                    .rev()
-                    .collect::<Vec<_>>()
-                    .join("\n"),
-            ),
-            Err(e) => (false, format!("cannot run cargo: {}", e)),
+        let (ok, tail, crate_fail) = match out {
+            Ok(o) => {
+                let all = String::from_utf8_lossy(&o.stderr).to_string();
+                (
+                    o.status.success(),
+                    all.lines()
+                        .rev()
+                        .take(12)
+                        .collect::<Vec<_>>()
+                        .into_iter()
+                        .rev()
+                        .collect::<Vec<_>>()
+                        .join("\n"),
+                    is_crate_failure(&all),
+                )
+            }
+            Err(e) => (false, format!("cannot run cargo: {}", e), false),
         };
         let cmdline = format!("cargo {}", argv.join(" "));
+        if !ok && !crate_fail {
+            env_failures.push(format!("{} :: {}", cmdline, tail));
+        }
         rows.push(
             J::obj()
                 .with("config", J::Str(label.clone()))
@@ -410,7 +426,7 @@ fn c06_build_matrix() -> MatrixResult {
         if label == "features={alloc,std,to_str}" && !ok {
             default_ok = false;
         }
-        if !ok {
+        if !ok && crate_fail {
             violations.push((cmdline, tail));
         }
     }
@@ -433,20 +449,23 @@ fn c06_build_matrix() -> MatrixResult {
         .args(&argv)
         .env("CARGO_NET_OFFLINE", "true")
         .output();
-    let (ok, tail) = match out {
-        Ok(o) => (
-            o.status.success(),
-            String::from_utf8_lossy(&o.stderr)
-                .lines()
-                .rev()
-                .take(12)
-                .collect::<Vec<_>>()
-                .into_iter()
-                .rev()
-                .collect::<Vec<_>>()
-                .join("\n"),
-        ),
-        Err(e) => (false, format!("cannot run cargo: {}", e)),
+    let (ok, tail, crate_fail) = match out {
+        Ok(o) => {
+            let all = String::from_utf8_lossy(&o.stderr).to_string();
+            (
+                o.status.success(),
+                all.lines()
+                    .rev()
+                    .take(12)
+                    .collect::<Vec<_>>()
+                    .into_iter()
+                    .rev()
+                    .collect::<Vec<_>>()
+                    .join("\n"),
+                is_crate_failure(&all),
+            )
+        }
+        Err(e) => (false, format!("cannot run cargo: {}", e), false),
     };
     let cmdline = format!("cargo {}", argv.join(" "));
     rows.push(
@@ -455,8 +474,10 @@ fn c06_build_matrix() -> MatrixResult {
             .with("cmd", J::Str(cmdline.clone()))
             .with("ok", J::Bool(ok)),
     );
-    if !ok {
+    if !ok && crate_fail {
         violations.push((cmdline, tail));
+    } else if !ok {
+        env_failures.push(format!("{} :: {}", cmdline, tail));
     }
     if !default_ok {
         // a tree whose default configuration does not build is a harness/build error
@@ -467,6 +488,7 @@ fn c06_build_matrix() -> MatrixResult {
             .with("default_build_ok", J::Bool(default_ok))
             .with("configs", J::Arr(rows)),
         violations,
+        env_failures,
         wall_s: t0.elapsed().as_secs_f64(),
     }
 }
@@ -560,6 +582,9 @@ fn check_main(
         extra.set("build_matrix_wall_s", J::Float(m.wall_s));
         if m.json.get("default_build_ok").and_then(|b| b.as_bool()) == Some(false) {
             harness_errors.push("default feature set does not build".into());
+        }
+        for e in m.env_failures.iter() {
+            harness_errors.push(format!("build matrix step failed for a reason outside the crate: {}", e));
         }
         for (i, (cmd, tail)) in m.violations.iter().enumerate() {
             let path = format!("{}/replays/C06-build-{}-{}.json", sup::verif_root(), seed, i);
